@@ -45,6 +45,19 @@ Definition sm_scan (p : bytes) (m : kvlist) : kvlist := filter (fun kv => is_pre
 Definition list_kv : KV :=
   {| kv_st := kvlist; kv_put := sm_put; kv_del := sm_del; kv_scan := sm_scan; kv_restore := fun m => m |}.
 
+(* ---------------------------------------------------------------- stored keys
+   The encoders of Model/KeyCodec.v with the key-group function as a parameter ([kgf] = [key_group count] in a
+   deployment with [count] key groups, see Proofs/C03_Codec.v [enc_db_is_encode_db_key]); nothing below depends
+   on which function of the subject key it is. *)
+Definition enc_db (kgf : bytes -> N) (subject ns data : bytes) : bytes :=
+  be16 (kgf subject) ++ [0] ++ be32 (u32 (blen subject)) ++ subject ++ [u8 (blen ns)] ++ ns ++ data.
+Definition enc_subject (kgf : bytes -> N) (subject : bytes) : bytes :=
+  be16 (kgf subject) ++ [0] ++ be32 (u32 (blen subject)) ++ subject.
+Definition enc_timer (kgf : bytes -> N) (subject : bytes) (t : Z) : bytes :=
+  be16 (kgf subject) ++ [1] ++ be64 (time_u64 t) ++ subject.
+(* KeyGroupPriorityQueue.loadFromDB scans <key-group><0x01> *)
+Definition timer_scan_prefix (kg : N) : bytes := be16 kg ++ [1].
+
 (* ---------------------------------------------------------------- handler protocol (handlerpb) *)
 
 Inductive mutation := MPut (e v : bytes) | MDel (e : bytes).
@@ -91,15 +104,15 @@ Inductive step :=
 
 Section Store.
   Variable K : KV.
-  Variable count : N.                                         (* key-group count of the deployment *)
+  Variable kgf : bytes -> N.                                  (* KeySpace.KeyGroup of the deployment *)
 
   Definition get_state (k : bytes) (s : kv_st K) : option (list ns_state) :=
-    option_map group_ns (decode_entries (kv_scan K (encode_subject_key count k) s)).
+    option_map group_ns (decode_entries (kv_scan K (enc_subject kgf k) s)).
 
   Definition apply_mutation (k ns : bytes) (s : kv_st K) (m : mutation) : kv_st K :=
     match m with
-    | MPut e v => kv_put K (encode_db_key count k ns e) v s
-    | MDel e => kv_del K (encode_db_key count k ns e) s
+    | MPut e v => kv_put K (enc_db kgf k ns e) v s
+    | MDel e => kv_del K (enc_db kgf k ns e) s
     end.
 
   Definition apply_mutations (k : bytes) (muts : list nsmuts) (s : kv_st K) : kv_st K :=
@@ -108,7 +121,7 @@ Section Store.
   (* TimerRegistry.SetTimer -> TimerStore.Put -> db.Put(timerKey, nil); [accept] is the watermark guard *)
   Variable accept : bytes -> Z -> bool.
   Definition set_timers (k : bytes) (ts : list Z) (s : kv_st K) : kv_st K :=
-    fold_left (fun s t => if accept k t then kv_put K (encode_timer_key count k t) [] s else s) ts s.
+    fold_left (fun s t => if accept k t then kv_put K (enc_timer kgf k t) [] s else s) ts s.
 
   Definition apply_result (s : kv_st K) (kr : key_result) : kv_st K :=
     apply_mutations (kr_key kr) (kr_muts kr) (set_timers (kr_key kr) (kr_timers kr) s).
@@ -170,7 +183,7 @@ Section Store.
         | Some (Some rr, s') => Some {| sy_db := s'; sy_saved := sy_saved y; sy_trace := sy_trace y ++ [rr] |}
         end
     | STimerDel k t =>
-        Some {| sy_db := kv_del K (encode_timer_key count k t) (sy_db y); sy_saved := sy_saved y; sy_trace := sy_trace y |}
+        Some {| sy_db := kv_del K (enc_timer kgf k t) (sy_db y); sy_saved := sy_saved y; sy_trace := sy_trace y |}
     | SCkpt id =>
         Some {| sy_db := sy_db y; sy_saved := (id, sy_db y) :: sy_saved y; sy_trace := sy_trace y |}
     | SRestore id =>
